@@ -16,6 +16,8 @@ def literal_multiset(fnode):
     doc = ast.get_docstring(fnode) if isinstance(fnode, (ast.FunctionDef, ast.ClassDef)) else None
     for n in ast.walk(fnode):
         if isinstance(n, ast.Constant) and isinstance(n.value, (int, float)) and not isinstance(n.value, bool):
+            if isinstance(n.value, int) and abs(n.value) <= 12:
+                continue          # exponents, indices, small factors: x**2 vs x*x must not matter (formulas are value-numbered separately)
             out[repr(float(n.value))] += 1
     return out
 
@@ -36,4 +38,166 @@ def compare(chk, rule, ref_key, fobj_or_node, where, what):
     ok = not missing and not extra
     chk.inst(rule, f"{ref_key}::constants", ok, f"{sum(want.values())} numeric literals equal the reference ({what})" if ok else
              f"constants differ from the reference ({what}): missing {dict(missing)}, unexpected {dict(extra)}", where)
+    return ok
+
+
+# ---- formula fingerprints (value numbering) ------------------------------------------------------------------------------
+
+FP_DATA = Path(__file__).resolve().parent / "data" / "formulas.json"
+
+
+def _h(*parts):
+    import hashlib
+    return hashlib.sha256("\x1f".join(str(p) for p in parts).encode()).hexdigest()[:16]
+
+
+class _VN:
+    """Value numbering of one function: every local name is replaced by the content hash of its defining expression (in
+    canonical term-algebra normal form where the algebra can model it), so the fingerprint of a *sink* (returned value,
+    attribute / element store) does not depend on the names of temporaries, on pure aliases, on dead statements, on the
+    order of independent statements, on formatting, operand order, constant folding or x**2 vs x*x.  Extracting a
+    sub-expression into a new temporary (or inlining one) does change it."""
+
+    def __init__(self, fnode):
+        self.sinks = []
+        env = {}
+        a = fnode.args
+        for arg in a.posonlyargs + a.args + a.kwonlyargs:
+            env[arg.arg] = "self" if arg.arg in ("self", "cls") else _h("param", arg.arg)
+        self.block(fnode.body, env, ())
+
+    # -- expressions
+    def tok(self, node, env):
+        import copy
+        from . import terms as T
+
+        class Ren(ast.NodeTransformer):
+            def visit_Name(s_, n):
+                if isinstance(n.ctx, ast.Load) and n.id in env:
+                    return ast.copy_location(ast.Name(id="V" + env[n.id] if env[n.id] != "self" else "self", ctx=n.ctx), n)
+                return n
+
+            def visit_Lambda(s_, n):
+                return n
+
+            def visit_FunctionDef(s_, n):
+                return n
+        rhs = Ren().visit(copy.deepcopy(node))
+        ast.fix_missing_locations(rhs)
+        try:
+            val = T.Extract(strict=True, drop_mod_2pi=False).ev(rhs)
+            if isinstance(val, list):
+                body = repr(T.mat_map(lambda p: T.normalize(p).key(), val))
+            else:
+                body = T.normalize(val).key()
+            # a bare atom is the value itself (pure alias)
+            if isinstance(val, T.Poly):
+                nz = T.normalize(val)
+                if len(nz.d) == 1:
+                    (k, v), = nz.d.items()
+                    if v == 1 and len(k) == 1 and k[0][1] == 1 and k[0][0].startswith("V") and len(k[0][0]) == 17:
+                        return k[0][0][1:]
+            return _h("nf", body)
+        except Exception:
+            return _h("tx", ast.unparse(rhs))
+
+    # -- statements
+    def block(self, stmts, env, conds):
+        for st in stmts:
+            self.stmt(st, env, conds)
+
+    def bind(self, target, token, env, conds):
+        if isinstance(target, ast.Name):
+            env[target.id] = _h("cond", conds, token) if conds else token
+        elif isinstance(target, (ast.Tuple, ast.List)):
+            for i, t in enumerate(target.elts):
+                self.bind(t, _h("item", token, i), env, conds)
+        else:
+            self.sinks.append(_h("store", self.tok(target, env) if not isinstance(target, ast.Attribute) else self.attr_text(target, env), token, conds))
+
+    def attr_text(self, target, env):
+        base = target
+        parts = []
+        while isinstance(base, ast.Attribute):
+            parts.append(base.attr)
+            base = base.value
+        b = self.tok(base, env) if not (isinstance(base, ast.Name) and env.get(base.id) == "self") else "self"
+        return b + "." + ".".join(reversed(parts))
+
+    def stmt(self, st, env, conds):
+        if isinstance(st, (ast.FunctionDef, ast.AsyncFunctionDef)):
+            env[st.name] = _h("def", ast.unparse(st))
+            return
+        if isinstance(st, ast.ClassDef):
+            return
+        if isinstance(st, ast.Assign):
+            t = self.tok(st.value, env)
+            for tg in st.targets:
+                self.bind(tg, t, env, conds)
+        elif isinstance(st, ast.AugAssign):
+            cur = self.tok(st.target, env)
+            t = _h("aug", type(st.op).__name__, cur, self.tok(st.value, env))
+            # x op= y as a value: try the algebra on `x op y`
+            try:
+                binop = ast.BinOp(left=ast.copy_location(ast.parse(ast.unparse(st.target), mode="eval").body, st), op=st.op, right=st.value)
+                ast.fix_missing_locations(binop)
+                t = self.tok(binop, env)
+            except Exception:
+                pass
+            self.bind(st.target, t, env, conds)
+        elif isinstance(st, ast.Return):
+            if st.value is not None:
+                self.sinks.append(_h("return", self.tok(st.value, env), conds))
+        elif isinstance(st, ast.Expr):
+            if isinstance(st.value, ast.Call):
+                self.sinks.append(_h("call", self.tok(st.value, env), conds))
+        elif isinstance(st, ast.If):
+            c = self.tok(st.test, env)
+            e1, e2 = dict(env), dict(env)
+            self.block(st.body, e1, conds + (("if", c),))
+            self.block(st.orelse, e2, conds + (("else", c),))
+            for k in set(e1) | set(e2):
+                a, b = e1.get(k), e2.get(k)
+                if a == b:
+                    env[k] = a
+                else:
+                    env[k] = _h("phi", c, a, b)
+        elif isinstance(st, (ast.For, ast.While)):
+            hdr = self.tok(st.iter if isinstance(st, ast.For) else st.test, env)
+            if isinstance(st, ast.For):
+                self.bind(st.target, _h("loopvar", hdr), env, ())
+            before = dict(env)
+            self.block(st.body, env, conds + (("loop", hdr),))
+            for k in env:
+                if before.get(k) != env[k]:
+                    env[k] = _h("looped", hdr, before.get(k), env[k])
+            self.block(st.orelse, env, conds)
+        elif isinstance(st, ast.Try):
+            self.block(st.body, env, conds)
+            for h in st.handlers:
+                self.block(h.body, env, conds + (("except",),))
+            self.block(st.finalbody, env, conds)
+        elif isinstance(st, ast.With):
+            self.block(st.body, env, conds)
+        elif isinstance(st, ast.Raise):
+            self.sinks.append(_h("raise", self.tok(st.exc, env) if st.exc is not None else "", conds))
+
+
+def formula_fingerprints(fnode):
+    """Sorted multiset of sink fingerprints of the function."""
+    return sorted(_VN(fnode).sinks)
+
+
+def compare_formulas(chk, rule, ref_key, fnode, where, what):
+    from collections import Counter
+    ref = json.loads(FP_DATA.read_text()).get(ref_key)
+    if ref is None:
+        from .model import AnalysisError
+        raise AnalysisError(f"no frozen formulas for {ref_key}")
+    got = Counter(formula_fingerprints(fnode))
+    want = Counter(ref)
+    ok = got == want
+    n_diff = sum((want - got).values())
+    chk.inst(rule, f"{ref_key}::formulas", ok, f"the {sum(want.values())} outputs of the function (returned values, stores) have the reference value numbers ({what})" if ok else
+             f"{n_diff} of {sum(want.values())} outputs of the function no longer have the reference value number ({what}): a formula feeding them changed", where)
     return ok
